@@ -1,6 +1,7 @@
 // Invalid-text generators: single-fault mutants of valid JSON texts (fault class known by construction
 // is NOT relied upon - the refjson recogniser judges every mutant), truncations, byte mutations.
 #pragma once
+#include <functional>
 #include <string>
 #include <vector>
 
@@ -180,6 +181,32 @@ inline std::string nesting_text(Src& s, int max_depth) {
       default: t += "\"unterminated"; break;
     }
   }
+  return t;
+}
+
+// A valid text with the highest possible ratio of values to bytes: no white space, only arrays (a few objects with empty
+// keys), every scalar one byte long. Sizing rules that estimate the number of values from the text length (parser node
+// stacks) are exact or nearly exact on such texts.
+inline std::string dense_text(Src& s) {
+  std::string t;
+  int wrap = s.coin(1, 2) ? 0 : s.range(1, s.coin(1, 4) ? 60 : 6);
+  for (int i = 0; i < wrap; i++) t += '[';
+  std::function<void(int)> items = [&](int depth) {
+    size_t n = s.coin(1, 3) ? (size_t)s.pick(12, 40) : s.coin(1, 2) ? (size_t)s.pick(1, 12) : (size_t)s.pick(1, 300);
+    for (size_t i = 0; i < n; i++) {
+      if (i) t += ',';
+      size_t k = s.weighted({40, 3, 1, 1});
+      if (k == 0 || depth >= 4) t += (char)('0' + s.pick(0, 9));
+      else if (k == 1) { t += '['; items(depth + 1); t += ']'; }
+      else if (k == 2) t += "[]";
+      else { t += "{\"\":"; t += (char)('0' + s.pick(0, 9)); t += '}'; }
+      if (t.size() > 1500) break;
+    }
+  };
+  t += '[';
+  items(0);
+  t += ']';
+  for (int i = 0; i < wrap; i++) t += ']';
   return t;
 }
 
